@@ -860,8 +860,9 @@ where
 					self.doctest_mode,
 				);
 				match res {
-					Ok(s) => Ok(s.unwrap()),
-					Err(_) => Ok(slate),
+					// (nothing was sent: the slate goes back to the caller)
+					Ok(Some(s)) => Ok(s),
+					Ok(None) | Err(_) => Ok(slate),
 				}
 			}
 			None => Ok(slate),
